@@ -11,7 +11,7 @@ RULE = ("schema and schemamal families: JSON snapshots of the instance and of th
 
 
 def correspond(ctx, C):
-    n = 3000 if ctx.tier == "quick" else 200000
+    n = 10000 if ctx.tier == "quick" else 200000
     if ctx.search:
         n *= 3
     rp = S.replay_file(ctx, C)
